@@ -46,6 +46,10 @@ def build(rng, tier):
         tree.link(tree.cwd + b'/sub/alias.txt', b'data.txt').link(tree.cwd + b'/sub/down.txt', b'inner/data.txt')
         tree.link(tree.cwd + b'/sub/inner/up.txt', b'../data.txt').link(tree.cwd + b'/sub/inner/upup.txt', b'../../data.txt').link(tree.cwd + b'/top.lnk', b'sub/inner/data.txt')
         for t in ['/sub/alias.txt', '/sub/down.txt', '/sub/inner/up.txt', '/sub/inner/upup.txt', '/top.lnk', '/sub/alias.txt?x=1', '/sub//alias.txt']: add(t, 'proc'); add(t)
+        # a directory WITH an index page next to a page of the same stem: the index wins for /guide and /guide/, the page is /guide.html
+        tree.file(tree.cwd + b'/guide/index.html', b'<p>the index inside guide/</p>').file(tree.cwd + b'/guide.html', b'<p>the page guide.html, a different length</p>')
+        tree.file(tree.cwd + b'/sub/deep/index.html', b'<p>deep index</p>').file(tree.cwd + b'/sub/deep.html', b'<p>deep page, longer than the index</p>')
+        for t in ['/guide', '/guide/', '/guide.html', '/guide?x=1', '/guide#f', '/guide/index.html', '/sub/deep', '/sub/deep/', '/sub/deep.html']: add(t, 'proc'); add(t)
         if ti % 4 == 1:
             tree.file(tree.cwd + b'/docs/x.txt', b'x').file(tree.cwd + b'/docs.html', b'<d>').file(tree.cwd + b'/old.html.html', b'<o>')
             tree.file(tree.cwd + b'/idx/index.html/inner.txt', b'i').file(tree.cwd + b'/ghost.html/inner.txt', b'g')
